@@ -36,6 +36,19 @@ def switch_arms(sw):
     return seq
 
 
+def arm_of(sw, n):
+    """labels of the switch arm whose statements contain node n (fall-through groups: the labels that start the group)."""
+    cur = None
+    for labels, st in switch_arms(sw):
+        if labels:
+            cur = labels
+        if st is not None:
+            for m in walk(st):
+                if m is n:
+                    return cur
+    return None
+
+
 def enum_paths(stmt, limit=4000):
     """All acyclic paths through a statement made of compound / if / switch /
     return / throw; loops, try blocks and everything else are opaque single
